@@ -656,3 +656,12 @@ Proof.
   exists s1, v, wv, s2. rewrite <- Es. split; [apply psort_perm|]. split; [apply psort_sorted|].
   split; [exact Hp|]. split; lra.
 Qed.
+
+(* np.median: the middle order statistic (mean of the two middle ones for an even count) *)
+Theorem median_spec l : exists s, Permutation l s /\ sorted s /\
+  median l = (let n := length l in
+              if Nat.even n then (nth (n / 2 - 1) s 0 + nth (n / 2) s 0) / 2 else nth (n / 2) s 0).
+Proof.
+  exists (isort l). split; [apply isort_perm|]. split; [apply isort_sorted|].
+  unfold median. rewrite isort_length. reflexivity.
+Qed.
